@@ -53,12 +53,15 @@ def plan(prop, tier):
         P["sim"] = [("c05_walk", C(MaxCrashes=2, MaxBatches=5, SimLen=16, MaxReopens=1), 300 if q else 3000, 8),
                     ("c05_walk_nosync", C(MaxCrashes=2, MaxBatches=5, SimLen=16, NoSync="TRUE"), 100 if q else 1000, 8)]
         P["leads"] = [("c05_lead_scan", C(MaxCrashes=1, MaxBatches=3), ["ScanStopsOnShortRead"], ["LeadAtLeastSynced", "LeadOpenNeverFails"], 8),
-                      ("c05_lead_hdr", C(MaxCrashes=1, MaxBatches=3), ["BadHeaderAbortsOpen", "NoValidFileFailsOpen"], ["LeadOpenNeverFails"], 4)]
+                      ("c05_lead_hdr", C(MaxCrashes=1, MaxBatches=3), ["BadHeaderAbortsOpen", "NoValidFileFailsOpen"], ["LeadOpenNeverFails"], 4),
+                      # images in which a footer survives while the data it points to is lost: legal only if the
+                      # implementation does not sync between the two (the driver checks that against the recorded syncs)
+                      ("c05_lead_sync", C(MaxCrashes=1, MaxBatches=3), ["NoSyncBeforeFooter"], ["LeadPublishedFooterReadable"], 1)]
         P["dims"] = {"c05_walk": [{"nkeys": 3}, {"nkeys": 3, "bigVals": True}], "c05_walk_nosync": [{"nkeys": 3, "noSync": True}],
-                     "c05_lead_scan": [{"nkeys": 3}], "c05_lead_hdr": [{"nkeys": 3}]}
+                     "c05_lead_scan": [{"nkeys": 3}], "c05_lead_hdr": [{"nkeys": 3}], "c05_lead_sync": [{"nkeys": 3}, {"nkeys": 3, "bigVals": True}]}
         P["relevant"] = r"^crash\."
         P["rule"] = ("behaviours of MossStore with Crash actions: TLC chooses the crash point (between any two file operations of an append or "
-                     "compaction round) and the disk image (unsynced records lost from the tail, the last one torn); the image is materialised from "
+                     "compaction round) and the disk image (any subset of the un-synced records of every file lost, the last write torn); the image is checked for legality against the recorded syncs and materialised from "
                      "the recorded writes of the implementation with every tear offset class of the record kind, reopened, and must open and hold the "
                      "reference after a prefix at least as long as the last synced round; non-trivial = the image differs from the full disk content")
     elif prop == "C06":
@@ -160,6 +163,11 @@ def classify(rep, prop, relevant, findings, results, behs, d, cfgname):
         if r["status"] == "infra":
             rep.infra.append("%s dims=%s behaviour %d: %s" % (cfgname, json.dumps(d), r["id"], r.get("infra")))
             continue
+        if r["status"] == "skip":
+            # the crash image TLC chose is not one the crash model allows for the *recorded* trace
+            # (the implementation synced between the lost record and a surviving one)
+            rep.extra["crash_images_illegal_for_recorded_trace"] = rep.extra.get("crash_images_illegal_for_recorded_trace", 0) + 1
+            continue
         rep.traces += 1
         if nontrivial(prop, r, behs[r["id"]]):
             rep.nontrivial.add((cfgname, r["id"], r.get("variant", 0)))
@@ -216,13 +224,17 @@ def run(prop, tier):
             d.setdefault("seed", sd)
             results, infra = vlib.run_replay(bp, d, binary="storereplay", extra_args=["-variants", str(variants)])
             rep.infra += infra
-            rep.evaluations += len(results)
+            rep.evaluations += len([r for r in results if r["status"] != "skip"])
             classify(rep, prop, P["relevant"], findings, results, behs, d, name)
-            log("%s: %s dims=%s: %d replays, %d violations so far" % (prop, name, json.dumps(d), len(results), len(rep.violations)))
-    rep.assumptions = [
+            log("%s: %s dims=%s: %d replays (%d images illegal for the recorded trace), %d violations so far" % (prop, name, json.dumps(d), len([r for r in results if r["status"] != "skip"]), len([r for r in results if r["status"] == "skip"]), len(rep.violations)))
+    if prop == "C07":
+        # partial compactions at the splice points the implementation's own policy chooses, with child collections
+        import check_coll
+        check_coll.run_into(rep, "C07", tier)
+    rep.assumptions += [
         "TLC and the CommunityModules Json module",
         "content is abstract in MossStore (batch numbers); key-level semantics of persisted segments is decided by the store-backed MossColl replays",
-        "crash model as stated in property C05: unsynced records are lost from the tail of a file, the last surviving unsynced record torn at any byte class",
+        "crash model as stated in property C05 at the granularity of records (header, segment, footer): any subset of the un-synced records of a file is lost, the last write torn at any byte class; creations and unlinks ordered",
         "fault injection through StoreOptions.OpenFile (a File wrapping *os.File)",
     ]
     shutil.rmtree(work, ignore_errors=True)
